@@ -66,6 +66,12 @@ def cases(tier):
                 a = {n: DIMS[n][0] for n in DIMS}
                 a.update(term1=t, method=meth, grid=g, M=2, **extra)
                 add(a, ["term1", "method", "grid", "M"] + list(extra))
+    from ..common import have_networkx
+    if have_networkx():
+        for t in SPLINE_TERMS:
+            for N in (2, 3):
+                for g in ("uniform", "geom"):
+                    out.append(dict(kind="spline", term=t, N=N, grid=g, dev=[t, "Spline"]))
     return out
 
 
@@ -106,7 +112,71 @@ def public_paths(case, res, tags):
     return vios
 
 
+SPLINE_TERMS = ["at_tf", "at_t0", "sum", "sum_last", "int_control", "integral_one", "integral_sq", "integral_u"]
+
+
+def run_spline(case):
+    """objective terms under SplineMethod (integrator chain p'=v, v'=u): expected values from the sampled spline
+    trajectory (node samples for Mayer / sum / left sum; exact integral of the piecewise polynomial for integral)"""
+    import rockit, casadi as ca, sys
+    from .. import core
+    from .c17 import rockit_grid
+    term, N, g = case["term"], case["N"], case["grid"]
+    tags = ["method=Spline", "obj=%s" % term, "N=%d" % N, "grid=%s" % g] + (["has_integral"] if term.startswith("integral") else [])
+    vios = []
+    try:
+        ocp = rockit.Ocp(t0=0.3, T=1.9)
+        p = ocp.state(); v = ocp.state(); u = ocp.control()
+        ocp.set_der(p, v); ocp.set_der(v, u)
+        ocp.subject_to(ocp.at_t0(p) == 0.1); ocp.subject_to(-1 <= (u <= 1)); ocp.subject_to(p <= 5)
+        e = p * p + 0.3 * v
+        obj = {"at_tf": lambda: ocp.at_tf(e), "at_t0": lambda: ocp.at_t0(e), "sum": lambda: ocp.sum(e), "sum_last": lambda: ocp.sum(e, include_last=True),
+               "int_control": lambda: ocp.integral(e, grid="control"), "integral_one": lambda: ocp.integral(1 + 0 * p), "integral_sq": lambda: ocp.integral(e),
+               "integral_u": lambda: ocp.integral(u * u)}[term]()
+        ocp.add_objective(obj)
+        ocp.add_objective(0.01 * ocp.at_tf(v * v) + 0.01 * ocp.sum(u * u))      # keeps every coefficient active
+        ocp.solver("ipopt", {"ipopt.print_level": 0, "print_time": False, "ipopt.sb": "yes"})
+        ocp.method(rockit.SplineMethod(N=N, grid=rockit_grid(g)))
+        nlp = NL.Nlp(ocp)
+        R = 8
+        tn, en = ocp.sample(e, grid="control")
+        tr, er = ocp.sample(e, grid="control", refine=R)
+        _, ur = ocp.sample(u * u, grid="control", refine=R)
+        _, ex = ocp.sample(0.01 * v * v, grid="control")
+        _, exu = ocp.sample(0.01 * u * u, grid="control")
+        F = ca.Function("s", [nlp.x, nlp.p], [tn, en, tr, er, ur, ex, exu])
+        for which in range(3):
+            w = NL.generic(nlp.nx, which, 0, lo=-0.8, hi=1.2)
+            tn_, en_, tr_, er_, ur_, ex_, exu_ = [np.array(a).reshape(-1) for a in F(w, nlp.p0)]
+            dt = np.diff(tn_)
+
+            def exact_integral(vals):
+                tot = 0.0
+                s_ = np.linspace(0, 1, R + 1)
+                for k in range(N):
+                    seg = vals[k * R:(k + 1) * R + 1]
+                    pol = np.poly1d(np.polyfit(s_, seg, min(R, 8)))
+                    ip = pol.integ()
+                    tot += (ip(1.0) - ip(0.0)) * dt[k]
+                return tot
+            want = {"at_tf": en_[-1], "at_t0": en_[0], "sum": np.sum(en_[:-1]), "sum_last": np.sum(en_), "int_control": np.sum(dt * en_[:-1]),
+                    "integral_one": tn_[-1] - tn_[0], "integral_sq": exact_integral(er_), "integral_u": exact_integral(ur_)}[term]
+            want = want + ex_[-1] + np.sum(exu_[:-1])
+            got = nlp.eval(w)[0]
+            if not NL.close(got, want, 1e-7):
+                vios.append(dict(sig="value:obj:spline", tags=tags, detail="objective with the term %s is %.8g under SplineMethod; the sampled trajectory gives %.8g" % (term, got, want)))
+                break
+    except Exception as ex_:
+        fr = core.rockit_frame(sys.exc_info()[2])
+        if fr is None and not isinstance(ex_, (RuntimeError, AssertionError, AttributeError)):
+            raise
+        vios.append(dict(sig="exception:spline:%s" % (fr or type(ex_).__name__), tags=tags, detail="%s: %s" % (type(ex_).__name__, str(ex_)[:200])))
+    return dict(violations=vios, evaluations=3, traces=1, transitions=1, outcome=explore.sha(case), nontrivial=True, sample=case)
+
+
 def run_case(case):
+    if case.get("kind") == "spline":
+        return run_spline(case)
     case = dict(case)
     case["solve"] = len(case.get("dev", [])) <= 1
     out = _trans.run_trans(case, OWN, extra_check=public_paths)
@@ -119,6 +189,6 @@ def run_case(case):
 
 def describe(tier):
     return dict(
-        rule="deviation-bounded enumeration over objective term choices (3 slots, %d term kinds) x method/intg/N/M/degree/scheme/grid/horizon/state/per-interval kinds, plus every term x every scheme table; opti.f compared at generic points with own Mayer/sum/left-sum/quadrature (RK4/Euler stages of the augmented system; classical collocation weights b_j); ocp.value(objective) and sol.value(objective) after a limited real solve compared with the NLP objective" % len(TERMS),
+        rule="deviation-bounded enumeration over objective term choices (3 slots, %d term kinds) x method/intg/N/M/degree/scheme/grid/horizon/state/per-interval kinds, plus every term x every scheme table; opti.f compared at generic points with own Mayer/sum/left-sum/quadrature (RK4/Euler stages of the augmented system; classical collocation weights b_j); ocp.value(objective) and sol.value(objective) after a limited real solve compared with the NLP objective; SplineMethod: 8 term kinds x N x grid against the sampled spline trajectory (exact piecewise-polynomial integral)" % len(TERMS),
         bound="k<=%d deviations + term x scheme table" % (3 if tier == "thorough" else 2),
         assumptions=["CasADi Function evaluation and Opti bookkeeping are trusted", "generic-point alphabet for the numeric quantifier"])
